@@ -26,7 +26,7 @@ EXPLANATION = ("Equivalence queries: two implementations are run on the same sym
                "generate_pafs. (b) Dataset.__getitem__ in memory vs np_chunks (savez/load stubbed as a store) vs *_data_chunks + *StreamingDataset.__getitem__ (litdata read "
                "stubbed), all model types at scale 1; single-instance, centroid, bottom-up also at scale 0.5 and 2.")
 ASSUMPTIONS = ["keypoints symbolic (one missing flag per point), images concrete; 1-2 frames, <=2 animals, 2 nodes", "np.savez_compressed/np.load and litdata's StreamingDataset.__getitem__ return what was stored",
-               "crop_and_resize geometry-only stub (crop pixel content is compared as zeros)", "exp uninterpreted (equal arguments => equal values)"]
+               "crop_and_resize geometry-only stub: a crop's content is the constant mean of its SOURCE image (identifies which frame was cropped; pixel geometry inside the crop is not modelled)", "exp uninterpreted (equal arguments => equal values)"]
 STUBS = ["np / torch proxies in the data modules", "np.savez_compressed / np.load -> in-memory store", "ld.StreamingDataset.__getitem__ -> returns the chunk-function sample", "crop_and_resize -> geometry-only stub"]
 OUTSIDE = ["augmentation on", "litdata's on-disk serialisation", "more than 2 frames / 2 animals / 2 nodes", "centered-instance at scale != 1 (documented to differ)"]
 REQUIRED_WITNESSES = []
@@ -48,6 +48,9 @@ def configs(tier, seed):
     # user_instances_only=False with a predicted instance next to the user instances (all frameworks must honour the flag alike)
     for cls in (("Centroid", "CenteredInstance") if tier == "quick" else ("Centroid", "CenteredInstance", "BottomUp")):
         out.append(dict(kind="framework", cls=cls, scale=1.0, is_rgb=False, user_only=False))
+    # two videos whose labelled frames share a frame index (anything keyed by frame_idx alone confuses them)
+    for cls in (("CenteredInstance",) if tier == "quick" else ("CenteredInstance", "Centroid", "SingleInstance")):
+        out.append(dict(kind="framework", cls=cls, scale=1.0, is_rgb=False, two_videos=True))
     return out
 
 
@@ -196,7 +199,7 @@ def _run_block(cfg):
 STORE = {}
 
 
-def _make_labels(sym, single=False, with_pred=False):
+def _make_labels(sym, single=False, with_pred=False, two_videos=False):
     """2 frames, frame 0 with two user animals (one for single-instance models), frame 1 with one; 2 nodes; symbolic keypoints."""
     import numpy as np
     from symx.xf import XF
@@ -220,6 +223,10 @@ def _make_labels(sym, single=False, with_pred=False):
         lf0 = fakes.FLF(vid, 0, [fakes.FInst(inst("A", env), True, "A"), fakes.FInst(inst("B", env), False, "B")], fakes.ramp_image(8, 8, 1, 0))
     if single == "one-frame":
         return fakes.FLabels([lf0], [vid])
+    if two_videos:  # the second frame lives in a second video and has the SAME frame index as the first
+        vid2 = fakes.FVideo(2, 8, 8, name="mem2")
+        lf1 = fakes.FLF(vid2, 0, [fakes.FInst(inst("C", env), True, "C")], fakes.ramp_image(8, 8, 1, 5))
+        return fakes.FLabels([lf0, lf1], [vid, vid2])
     return fakes.FLabels([lf0, lf1], [vid])
 
 
@@ -342,11 +349,11 @@ def _run_framework(cfg):
         STORE.clear()
         with T.SymMode():
             try:
-                mem = _build(cfg, _make_labels(True, (True if cls == "SingleInstance" else "one-frame" if cls == "BottomUp" else False), not cfg.get("user_only", True)), False)
+                mem = _build(cfg, _make_labels(True, (True if cls == "SingleInstance" else "one-frame" if cls == "BottomUp" else False), not cfg.get("user_only", True), cfg.get("two_videos", False)), False)
                 mem_s = [mem[i] for i in range(len(mem))]
-                npz = _build(cfg, _make_labels(True, (True if cls == "SingleInstance" else "one-frame" if cls == "BottomUp" else False), not cfg.get("user_only", True)), True)
+                npz = _build(cfg, _make_labels(True, (True if cls == "SingleInstance" else "one-frame" if cls == "BottomUp" else False), not cfg.get("user_only", True), cfg.get("two_videos", False)), True)
                 npz_s = [npz[i] for i in range(len(npz))]
-                st_s = _streaming_samples(cfg, _make_labels(True, (True if cls == "SingleInstance" else "one-frame" if cls == "BottomUp" else False), not cfg.get("user_only", True)))
+                st_s = _streaming_samples(cfg, _make_labels(True, (True if cls == "SingleInstance" else "one-frame" if cls == "BottomUp" else False), not cfg.get("user_only", True), cfg.get("two_videos", False)))
             except Exception as e:  # noqa
                 if isinstance(e, xf.EngineGap):
                     raise
@@ -412,11 +419,11 @@ def replay(cfg, inputs, obligation):
             return store[str(f)]
     cd.np = NPX()
     try:
-        mem = _build(cfg, _make_labels(env, (True if cfg["cls"] == "SingleInstance" else "one-frame" if cfg["cls"] == "BottomUp" else False), not cfg.get("user_only", True)), False)
+        mem = _build(cfg, _make_labels(env, (True if cfg["cls"] == "SingleInstance" else "one-frame" if cfg["cls"] == "BottomUp" else False), not cfg.get("user_only", True), cfg.get("two_videos", False)), False)
         mem_s = [mem[i] for i in range(len(mem))]
-        npz = _build(cfg, _make_labels(env, (True if cfg["cls"] == "SingleInstance" else "one-frame" if cfg["cls"] == "BottomUp" else False), not cfg.get("user_only", True)), True)
+        npz = _build(cfg, _make_labels(env, (True if cfg["cls"] == "SingleInstance" else "one-frame" if cfg["cls"] == "BottomUp" else False), not cfg.get("user_only", True), cfg.get("two_videos", False)), True)
         npz_s = [npz[i] for i in range(len(npz))]
-        st_s = _streaming_samples(cfg, _make_labels(env, (True if cfg["cls"] == "SingleInstance" else "one-frame" if cfg["cls"] == "BottomUp" else False), not cfg.get("user_only", True)))
+        st_s = _streaming_samples(cfg, _make_labels(env, (True if cfg["cls"] == "SingleInstance" else "one-frame" if cfg["cls"] == "BottomUp" else False), not cfg.get("user_only", True), cfg.get("two_videos", False)))
     except Exception as e:
         return obligation.startswith("T-"), f"{type(e).__name__}: {e}"
     finally:
